@@ -87,6 +87,44 @@ example : noTabAfterEol sampleText = true := by decide
 example : markdownEscapeText sampleText = [92, 35, 32, 97, 32, 92, 42, 98, 92, 42, 194, 160, 32, 10, 49, 92, 46, 32, 92, 91, 99, 92, 93, 92, 40, 100, 92, 41, 32, 92, 60, 101, 92, 62, 32, 92, 38, 97, 109, 112, 59, 10, 10, 194, 160, 194, 160, 194, 160, 32, 92, 45, 32, 102, 92, 92] := by decide
 example : inert sampleText (markdownEscapeText sampleText) = true := by decide
 
+/-! ### allowHTML mode (`markdownEscape(w, s, true)`: values of type HTML shown in Markdown) -/
+
+/-- the full statement for input without `<` (no tags, comments, CDATA): text-mode escaping,
+except that `&` passes through so that the value's character references stay references -/
+def HtmlModeFull : Prop :=
+  ∀ s : Bytes, noLt s = true → markdownEscape s true = .ok (escAmpThrough true s)
+
+/-- **allowHTML mode — partial**: for `s` without `<` and without `&` the output is exactly the
+text-mode output, so every clause above (`active_bytes_escaped` … `inert_partial`) applies to it.
+(`…_partial`: before an `&` the code writes whatever the variable `esc` — declared outside the
+loop and not assigned by `case '&'` when `allowHTML` is true — still holds from an earlier
+iteration: a backslash or U+00A0. `not_HtmlModeFull`; known finding
+`md-html-stale-esc-before-amp`. Independently of that, the `#` of a numeric character reference
+is escaped like any `#` — `&#35;` is written `&\\#35;` — in the code and in `escAmpThrough`
+alike: known finding `md-html-numeric-reference-escaped`, seen by the harness with goldmark.) -/
+theorem html_mode_partial (s : Bytes) (h : noLtAmp s = true) :
+    markdownEscape s true = .ok (markdownEscapeText s) := by
+  unfold markdownEscape markdownEscapeHTML markdownEscapeText
+  simp only [if_true]
+  exact escHTML_noLtAmp s _ true [] (by omega) h
+
+/-- the witness: `*&` — written `\*\&`; the backslash before `&` turns a following character
+reference of the HTML value into literal text (`2*3 &lt; 7` is shown as `2*3 &lt; 7`) -/
+def staleWitness : Bytes := [42, 38]
+
+theorem staleWitness_output : markdownEscape staleWitness true = .ok [92, 42, 92, 38] := by rfl
+
+theorem not_HtmlModeFull : ¬ HtmlModeFull := by
+  intro h
+  have h1 := h staleWitness (by decide)
+  rw [staleWitness_output] at h1
+  have h2 : ([92, 42, 92, 38] : Bytes) = escAmpThrough true staleWitness := Except.ok.inj h1
+  revert h2
+  decide
+
+-- non-vacuity: an HTML-free value with active punctuation and spaces
+example : noLtAmp [35, 32, 97, 32, 42, 98, 42, 32, 32, 10, 49, 46] = true := by decide
+
 /-! ### code block -/
 
 /-- the full statement of the property's second half, for both indentations -/
